@@ -11,3 +11,8 @@ import PlcProofs.Props.C02
 #print axioms C02.analyze_ok_iff
 #print axioms C02.no_spurious_P0004
 #print axioms C02.single_fault_P0004
+#print axioms C02.stage_order_is_code
+#print axioms C02.staged_pipeline
+#print axioms C02.stage_codes_are_code
+#print axioms C02.stage_codes_published
+#print axioms C02.rule_reports_only_its_codes
